@@ -687,6 +687,10 @@ void Parser::ParserImpl::loadComponent(const ComponentPtr &component, const XmlN
 
                     // Set all attributes that had an old CellML namespace with CellML 2.0 namespace.
                     for (const auto &cellmlAttribute : cellmlAttributes) {
+                        // The units named on a cn element get the same spelling conversion as the units of a variable.
+                        if (cellmlAttribute->name() == "units") {
+                            cellmlAttribute->setValue(convertNonSiUnits(cellmlAttribute->value()));
+                        }
                         cellmlAttribute->setNamespacePrefix("cellml");
                     }
                 }
